@@ -212,6 +212,15 @@ func emptyTextCases(prop string, g *Gen) []*Case {
 		// observation outside the properties' "regular text = non-empty"; see DESIGN 14.3)
 	}
 	if prop == "C04" {
+		defer registerUMultiPay()()
+		// a multi-cause type with a payload (the payload's message is unknown wherever the type is)
+		shapes = append(shapes,
+			shape{"umultipay(new a, wrap(goerr b))", func() error {
+				return &UMultiPay{"two failed", []error{errors.New("a"), errors.Wrap(goErr.New("b"), "w")}}
+			}, nil},
+			shape{"wrap(umultipay(single))", func() error {
+				return errors.Wrap(&UMultiPay{"one failed", []error{errors.WithHint(errors.New("a"), "h")}}, "ctx")
+			}, nil})
 		// library types whose encoder sends the text for processes that do not know them, over
 		// branch / cause texts that are empty or begin or end with a newline
 		for _, t := range []string{"", "\nx", "x\n", "a\n\nb", "out:\n"} {
